@@ -75,6 +75,7 @@ type Exec struct {
 	exprTypes            map[Expr]types.Type
 	oldSet               map[int]bool
 	divAlias             map[int]*smt.Term
+	rangeIDs             map[*ssa.Range]int
 	divRest              map[[2]int]*smt.Term
 }
 
